@@ -761,6 +761,15 @@ def rewrite_signatures(root, kind):
                     if k.arg in ren:
                         k.arg = ren[k.arg]
             n_done += 1
+        elif kind == "rename-methods":
+            if key.startswith("__init__:") or fn.name.startswith("__"):
+                continue
+            new_name = fn.name + "_rn"
+            for c in sites[key]:
+                if isinstance(c.func, ast.Attribute):
+                    c.func.attr = new_name
+            fn.name = new_name
+            n_done += 1
         else:
             raise ValueError(kind)
     for p, mod in mods.items():
